@@ -481,6 +481,11 @@ func envB(run int, profile string, base []string) []string {
 			back = append(back, "GOFLAGS=-mod=mod", "GoProxy=direct")
 		}
 	}
+	// variables the tool itself interprets: whatever they say, the loader's environment stays
+	// hardened (the sandbox marker only tells the tool not to re-enter a sandbox)
+	if run%2 == 1 {
+		back = append(back, "SFW_SANDBOX_ID="+pick(r, []string{"1", "verif", "0"}))
+	}
 	env := append(append(append([]string{}, front...), base...), back...)
 	return env
 }
